@@ -494,11 +494,8 @@ def f6(ctx):
         key = base if ordinal[base] == 1 else '%s#%d' % (base, ordinal[base])
         obs.append(Ob('F6', key, info['ok'], info['why'], info['ev'].fn.loc(info['ev'].node), info['wit']))
     # bulk deleter callers: rowid first, filename last
-    bd = None
-    for f in ctx.prog.classes['Cache'].methods.values():
-        if any(isinstance(n, ast.Call) and n.args and isinstance(n.args[0], ast.Name) and n.args[0].id in f.params
-               and isinstance(n.func, ast.Name) and n.func.id == 'sql' for n in walk_shallow(f.node)):
-            bd = f
+    from .rules_lock import helper_roles
+    bd = helper_roles(ctx).get('bulk')
     if bd is not None:
         for f in ctx.prog.classes['Cache'].methods.values():
             for p in ctx.paths(f, 'plain')[:1] if f is not bd else []:
